@@ -73,6 +73,13 @@ func pickGrammar0(r *rand.Rand, idx int, usable bool, cfg gen.RandCfg) *spec.Gra
 	if usable && idx%50 == 7 {
 		return gen.Big(r)
 	}
+	if usable && idx%25 == 6 {
+		return gen.Ladder(r)
+	}
+	if usable && idx%50 == 19 {
+		// 260-340 productions, 600-850 states: beyond every 8-bit size
+		return gen.Huge(r)
+	}
 	if usable && idx%40 == 11 {
 		// more than 64 symbols (in-process checks only: the drivers' input encoding holds 62 tokens)
 		return gen.ManyTokens(r)
